@@ -198,4 +198,11 @@ theorem C13_ordered_map_is_the_sources {V : Type} : Generated.orderedMapTranslat
     cases lookup m.map k <;> rfl
 
 
+/-! The translated functions compute: a file that is the same on both sides is neither copied nor deleted, an extra destination folder is deleted, a file in
+the way of a folder is deleted as incompatible and the folder copied (evaluated on the definitions translated from the source on this run). -/
+example : ((Generated.processSrcEntrySrc ⟨true, false⟩ PState.init "a" (.file 5 3)).map (fun s => s.cpy.keys)) = some ["a"] := by decide
+example : ((prunSrc ⟨true, false⟩ PState.init [.dst "a" (.file 5 3), .src "a" (.file 5 3), .dst "b" .folder]).map (fun s => (s.cpy.keys, s.del.keys))) = some ([], ["b"]) := by decide
+example : ((prunSrc ⟨true, false⟩ PState.init [.src "a" .folder, .dst "a" (.file 5 3)]).map (fun s => (s.cpy.keys, s.del.iter.map (·.2.2)))) = some (["a"], [.incompatible]) := by decide
+
+
 end Rj.C13
